@@ -60,6 +60,10 @@ func roleOf(l *Loaded, v ssa.Value, recv string, d int) string {
 		return roleOf(l, x.X, recv, d+1)
 	case *ssa.MakeInterface:
 		return roleOf(l, x.X, recv, d+1)
+	case *ssa.ChangeInterface:
+		return roleOf(l, x.X, recv, d+1)
+	case *ssa.TypeAssert:
+		return roleOf(l, x.X, recv, d+1)
 	case *ssa.UnOp:
 		if x.Op == token.MUL {
 			if al, ok := x.X.(*ssa.Alloc); ok {
